@@ -52,7 +52,8 @@ Step ==
               diffTags == IF match # {} THEN {}
                           ELSE {<<DiffProp(e, d), "post-state-differs:" \o e.ev \o ":" \o d>> : d \in Diffs(cand, e.post)}
               S3 == IF blind THEN cand ELSE Adopt(cand, e.post)
-              httpTags == IF e.a.fault \/ cached THEN {} ELSE HttpTags(e.r.http, e.r.ok, CausesOf(S, e))
+              httpTags == IF cached THEN {} ELSE IF e.a.fault THEN FaultHttpTags(e.r.http)
+                          ELSE HttpTags(e.r.http, e.r.ok, CausesOf(S, e)) \cup LeakTags(e.r.http)
               all == j.tags \cup diffTags \cup InvTags(S, S3) \cup httpTags
           IN /\ S' = S3
              /\ bad' = bad \cup {<<t[1], e.tr, e.i, t[2]>> : t \in all}
